@@ -83,13 +83,12 @@ theorem fetch_cut_is_error (v : Nat) (offset : Int) (b : Body) (c : Conn) (hdr t
     (hb : b.Conserves) (hopen : c.closed = false)
     (hstream : c.stream = hdr ++ tail) (hlen : hdr.length = 8)
     (hsize : beInt (hdr.take 4) = n + 4) (hid : beInt (hdr.drop 4) = c.nextId)
-    (hcut : tail.length < n)
-    (hwf : ∀ cx s1, runSteps (fetchHeader v) { ver := v } ⟨tail, n⟩ = (.ok cx, s1) → cx.hwm = offset → s1.sz = 0) :
+    (hcut : tail.length < n) :
     (connFetch true v offset b c).1 ≠ .ok ∧
     ((connFetch true v offset b c).1.isFail = true → (connFetch true v offset b c).2.closed = true) ∧
     ((connFetch true v offset b c).1.isFail = false → (connFetch true v offset b c).2.stream = []) := by
   have hw := C11.wait_hdr c hdr tail n hstream hlen hsize hid
-  have hf := fetchRead_cut v offset b ⟨tail, n⟩ hb hcut hwf
+  have hf := fetchRead_cut v offset b ⟨tail, n⟩ hb hcut
   unfold connFetch
   simp only [hopen, Bool.false_eq_true, ↓reduceIte, hw]
   refine ⟨hf.1, ?_, hf.2⟩
